@@ -203,7 +203,7 @@ def run(ctx: core.Ctx) -> int:
                        extra=["-seed", str(ctx.seed + 131)])
     for c in c06.make_cases(inv, rnd, 1, len(cases) + 1, ctx.seed):
         cases.append({"tid": c["tid"], "p": c["p"], "label": c["label"], "seed": c["seed"]})
-    events = core.pmap(run_case, cases, chunksize=8)
+    events = ctx.pmap(run_case, cases, chunksize=8)
     for ev in events[:: max(1, len(events) // 3)][:3]:
         ctx.samples.append({"case": json.loads(ev["label"]), "exits": ev.get("exits"), "plain": ev.get("plain"),
                             "lines": ev.get("lines"), "lintfile": ev.get("lintfile", [])[:2]})
@@ -226,4 +226,4 @@ def run(ctx: core.Ctx) -> int:
 
 
 def replay(ctx: core.Ctx, path: str) -> int:
-    raise core.MachineryError("replay for C13 re-runs the case list; use the check with the same VERIF_SEED")
+    return core.generic_replay(ctx, path)
